@@ -117,9 +117,9 @@ def hexs(b):
 
 def part_framing(res, rng, driver, tier):
     streams = [b"", b"\n", b"1;2;3\r\n4", b"\xc3\xbc\n\xc3", b"a\r\nb\nc"]
-    streams += [gen_stream(rng, rng.randrange(1, 4)) for _ in range(25 if tier == "quick" else 150)]
-    streams += [gen_stream(rng, rng.randrange(4, 9)) for _ in range(15 if tier == "quick" else 150)]
-    streams += [gen_stream(rng, rng.randrange(20, 60)) for _ in range(6 if tier == "quick" else 60)]
+    streams += [gen_stream(rng, rng.randrange(1, 4)) for _ in range(60 if tier == "quick" else 400)]
+    streams += [gen_stream(rng, rng.randrange(4, 9)) for _ in range(40 if tier == "quick" else 400)]
+    streams += [gen_stream(rng, rng.randrange(20, 60)) for _ in range(15 if tier == "quick" else 150)]
     ops, impl, cases = [], [], []
     classes = ["base", "async", "asynctcp"]
     k = 0
@@ -203,11 +203,10 @@ def part_tcp_reader(res, rng, tier):
         state = {"done": False}
 
         def check_conn():
-            got = sum(len(args[0].encode("utf-8", "surrogatepass")) for _, args in lines)
+            # the watchdog hook of the reader loop: used here to end the loop once the whole
+            # stream has been handed to the protocol
             if state["done"]:
                 raise OSError("stop reader")
-            # stop once the peer has closed and nothing is left to read
-            return None
         orig_time = gtcp.time
         gtcp.time = FakeTime()
         try:
@@ -219,7 +218,6 @@ def part_tcp_reader(res, rng, tier):
                 pieces.append(stream[pos:pos + k])
                 pos += k
             sizes = []
-            orig_recv = None
             # write everything, then let the loop read until the socket is drained
             for p in pieces:
                 a.sendall(p)
@@ -297,10 +295,11 @@ class SyncRunner:
         self.tags = {}            # id(job tuple) -> origin tag
         self.emitted = []         # (text, tag)
         self.excs = []
+        self.ctl_excs = []      # raised to the caller of set_child_value (expected API behaviour)
         self.arrived = 0
         self.ctl_count = 0
 
-    def _patched(self, fn):
+    def _patched(self, fn, where="job"):
         import mysensors.handler as handler
         orig_lt = handler.time.localtime
         orig_time = self.task.time
@@ -309,7 +308,7 @@ class SyncRunner:
         try:
             return fn()
         except Exception as exc:  # noqa: BLE001
-            self.excs.append(G.exc_kind(exc))
+            (self.excs if where == "job" else self.ctl_excs).append(G.exc_kind(exc))
             return None
         finally:
             handler.time.localtime = orig_lt
@@ -376,7 +375,7 @@ class SyncRunner:
                 self.clock = op[1]
             elif kind == "M":
                 self.gw.metric = bool(op[1])
-        self._patched(go)
+        self._patched(go, where="ctl")
         self._tag_new(before, ("ctl", self.ctl_count))
         self.ctl_count += 1
 
@@ -440,7 +439,7 @@ def run_async(version, toks):
             ci += 1
         else:
             continue
-        if o.exc:
+        if o.exc and t[0] == "A":
             excs.append(o.exc)
     state = G.project_sensors(rg.gw.sensors) + " ota=" + G.project_ota(rg.gw.tasks.ota)
     return emitted, state, excs
@@ -530,7 +529,7 @@ D12_CORPUS = [
              ("A", "1;255;3;0;32;500\n"), ("A", "255;255;3;0;3;\n"), ("D",)]),
     ("2.0", [("A", "1;255;0;0;17;2.0\n"), ("A", "1;1;0;0;3;\n"), ("A", "1;1;1;0;2;1\n"), ("D",),
              ("A", "1;255;3;0;22;10\n"), ("D",), ("O", ("S", 1, 1, 2, "0", None)), ("D",),
-             ("A", "1;255;3;0;22;11\n"), ("A", "1;255;3;0;6;\n"), ("D",)]),
+             ("A", "1;255;3;0;22;11\n"), ("A", "255;255;3;0;3;\n"), ("D",)]),
 ]
 
 
@@ -633,7 +632,7 @@ def end_to_end(version, chunks, cls_name):
 
 
 def part_end_to_end(res, rng, tier):
-    n = 20 if tier == "quick" else 250
+    n = 50 if tier == "quick" else 500
     for i in range(n):
         version = rng.choice(["1.4", "2.0", "2.2", "2.1"])
         hist = G.gen_history(rng, version, 30, persist=False, ota=False, sleep=True, malformed=0.2)
